@@ -367,3 +367,32 @@ func H06History() {
 	}
 	vndObserveStr("expr", expr)
 }
+
+// H06FixedHistory: a projection with a fixed value list, together with the caller's filter,
+// evaluated on one Result that is edited in place from step to step (the way a Reader reuses
+// its Result: the key's value buffer is overwritten by a value of the same length). Each
+// verdict is that of the current value alone.
+func H06FixedHistory() {
+	filter, err := NewFilter("*")
+	if err != nil {
+		panic(err)
+	}
+	var pp ProjectionParser
+	if _, err := pp.Parse("a@(xx zz)", filter); err != nil {
+		panic(err)
+	}
+	res := &benchfmt.Result{Iters: 1, Name: benchfmt.Name("N")}
+	res.Values = []benchfmt.Value{{Value: 1, Unit: "u"}}
+	steps := vndParam("steps")
+	for k := 0; k < steps; k++ {
+		c := vndByte("v")
+		vndAssume(vndOr(vndOr(c == 'x', c == 'z'), c == 'q'))
+		// overwrite the value in place, as benchfmt.Reader does
+		res.SetConfig("a", string([]byte{c, c}))
+		m, err := filter.Match(res)
+		vndAssert(err == nil, "match-no-error")
+		inList := vndOr(c == 'x', c == 'z')
+		vndAssert(m.Test(0) == inList, "fixed-list-verdict-is-that-of-the-current-value")
+	}
+	vndReach("h06:fixed-history")
+}
